@@ -37,7 +37,7 @@ def c13(tier, seed):
     try:
         obs = vlib.Obs()
         variants = [('gcc', '-O2', False), ('gcc', '-O0', False), ('clang', '-O2', False), ('gcc', '-O2', True), ('clang', '-O1', True),
-                    ('gcc', '-Os', False), ('clang', '-Oz', False), ('gcc', '-O3 -march=native', False), ('gcc', '-O2 -funsigned-char -DNDEBUG', False)] + \
+                    ('gcc', '-Os', False), ('clang', '-Oz', False), ('gcc', '-O3 -march=native', False), ('gcc', '-O2 -funsigned-char -funsigned-bitfields -DNDEBUG', False), ('gcc', '-O2 -std=gnu2x', False), ('gcc', '-O2 -std=c11', False)] + \
             ([('clang', '-O0', False), ('gcc', '-O3', False), ('gcc', '-O0', True)] if tier == 'thorough' else [])
         bins = vlib.run_parallel(lambda v: build_bomon(work, v[0], v[1], v[2]), variants, workers=8)
         jobs = []
